@@ -96,7 +96,12 @@ def run_one(desc: dict) -> dict:
     lines: list[dict] = []
     phase = {"n": 0}
     issued = {"n": 0}
+    issued_by_key: dict = {}
     created = {"n": 0}
+    kind = desc.get("provider_kind", "class")
+    user = dict(USER)
+    if kind == "requests":
+        user["prov"] = "Basic " + base64.b64encode(b"provuser:provpass").decode()
 
     def behaviour(r):
         op = 1 if r.path == "/items" else 3 if r.path == "/plain" else 2
@@ -111,14 +116,15 @@ def run_one(desc: dict) -> dict:
         seen = {
             "hdr": hdrs.get("x-canary", ""), "basic": hdrs.get("authorization", ""),
             "ovq": (query.get("q") or [""])[-1] if len(query.get("q") or []) <= 1 else "MULTI:" + ",".join(query["q"]),
-            "ovh": hdrs.get("x-over", ""), "ovc": cookies.get("c", ""), "ovp": seg, "prov": hdrs.get("x-token", ""),
+            "ovh": hdrs.get("x-over", ""), "ovc": cookies.get("c", ""), "ovp": seg,
+            "prov": hdrs.get("authorization", "") if kind == "requests" else hdrs.get("x-token", ""),
             "key": hdrs.get("x-key", ""),
         }
         with lock:
             lines.append({"e": "R", "op": op, "ph": phase["n"], "method": r.method,
                           "vals": [seen[c] for c in CARRIERS], "linked": False, "case": hdrs.get("x-schemathesis-testcaseid", ""),
                           "probe": False, "parent": ""})
-        if "key" in carriers and op in (2, 3) and seen["key"] != USER["key"]:
+        if "key" in carriers and op in (2, 3) and seen["key"] != user["key"]:
             return json_response(401, {})
         if op == 1:
             with lock:
@@ -136,17 +142,25 @@ def run_one(desc: dict) -> dict:
                 def get(self, case, context):
                     with lock:
                         issued["n"] += 1
+                        k = context.operation.label if kind == "keyed" else "*"
+                        issued_by_key[k] = issued_by_key.get(k, 0) + 1
                     return "TOK"
 
                 def set(self, case, data, context):
                     case.headers = case.headers or {}
                     case.headers["X-Token"] = data
 
+            storage = schemathesis.auth if desc.get("provider_scope") == "global" else schema.auth
             if desc.get("provider_scope") == "global":
-                schemathesis.auth()(TokenAuth)
                 cleanup = schemathesis.auth.unregister
+            if kind == "requests":
+                import requests.auth
+
+                storage.set_from_requests(requests.auth.HTTPBasicAuth("provuser", "provpass"))
+            elif kind == "keyed":
+                storage(cache_by_key=lambda case, context: context.operation.label)(TokenAuth)
             else:
-                schema.auth()(TokenAuth)
+                storage()(TokenAuth)
         override = None
         ov = {"query": {}, "headers": {}, "cookies": {}, "path_parameters": {}}
         if "ovq" in carriers:
@@ -203,7 +217,7 @@ def run_one(desc: dict) -> dict:
         ln["parent"] = ids.setdefault(ln["parent"], len(ids) + 1) if ln["probe"] else 0
     hdr = {
         "carriers": [c in carriers for c in CARRIERS],
-        "user": [USER[c] for c in CARRIERS],
+        "user": [user[c] for c in CARRIERS], "issued_by_key": sorted(issued_by_key.values()) or [0],
         "applies": [[applies(c, op, desc["declared"]) for c in CARRIERS] for op in (1, 2, 3)],
         "declared": desc["declared"], "errors": errors[:5], "issued": issued["n"], "wall_ms": int((time.time() - t0) * 1000),
     }
